@@ -212,10 +212,10 @@ def runFieldOp (flds : Array (Fld C)) (j : Json) : Option Res := do
     some (ofExF (fieldBinScalarN (← fStr? j "name") ((fBool? j "rev").getD false) f c (← fNat? j "cdt")))
   | "unite" => do
     let g ← flds[(← fNat? j "g")]?
-    some (ofExF (fieldBinN "add" false f g))
+    some (ofExF (funite CRat.elemOps f g))
   | "flexible_addsub" => do
     let g ← flds[(← fNat? j "g")]?
-    some (ofExF (fieldBinN (if (fBool? j "neg").getD false then "sub" else "add") false f g))
+    some (ofExF (fflex CRat.elemOps f g ((fBool? j "neg").getD false)))
   | "scale" => do
     let c := crat (← fRat? j "cre") (← fRat? j "cim")
     if c == 1 then some .same else
